@@ -190,6 +190,17 @@ harnesses! {
     #[kani::unwind(22)]
     fn c03_sfo_quadratic_grid(nd) { sfo!(nd, f32, boxed32, SincInterpolationType::Quadratic, 8, 3, 2, 3.0, 14, 4, "base", grid, [(3.0, 2)]); }
 
+
+    // ---- recorded finding: oversampling factor 1 with Quadratic / Cubic interpolation asks the
+    // kernel for a sub-filter index >= nbr_sincs (region `oversampling_1`)
+    #[kani::unwind(10)]
+    fn c03_sfo_os1_cubic(nd) { sfo!(nd, f64, boxed64, SincInterpolationType::Cubic, 8, 1, 2, 2.0, 12, 4, "oversampling_1", grid, []); }
+    #[kani::unwind(10)]
+    fn c03_sfo_os1_quadratic(nd) { sfo!(nd, f64, boxed64, SincInterpolationType::Quadratic, 8, 1, 2, 2.0, 12, 4, "oversampling_1", grid, []); }
+    // control: Linear and Nearest are fine with a single sub-filter
+    #[kani::unwind(10)]
+    fn c03_sfo_os1_linear(nd) { sfo!(nd, f64, boxed64, SincInterpolationType::Linear, 8, 1, 2, 2.0, 12, 4, "base", grid, []); }
+
     // vacuity witness (must FAIL)
     #[kani::unwind(20)]
     fn c03_witness(nd) {
